@@ -6,6 +6,7 @@ CONSTANTS
   MaxUid = 1
   MaxCode = 1
   NFlagSets = 1
+  SyncLit = FALSE
   Kinds = {"LOGIN", "CAPABILITY", "ENABLE", "NAMESPACE", "APPEND", "CREATE", "UNAUTH"}
   Greetings = {"OK", "PREAUTH"}
   SimDepth = 0
